@@ -10,6 +10,7 @@ import (
 	"k8s.io/apimachinery/pkg/api/errors"
 	v1 "k8s.io/apimachinery/pkg/apis/meta/v1"
 	"k8s.io/apimachinery/pkg/labels"
+	"k8s.io/apimachinery/pkg/util/sets"
 	"k8s.io/apimachinery/pkg/util/wait"
 	"k8s.io/client-go/util/retry"
 	"k8s.io/klog"
@@ -75,6 +76,11 @@ func (s *objectStore) Save(cluster string, condition *proxyv1alpha1.RateLimitCon
 }
 
 func (s *objectStore) Delete(cluster, name string) error {
+	// serialized with the sync to the API, which works from a snapshot of the
+	// local store and would re-create a condition deleted in between
+	s.Lock()
+	defer s.Unlock()
+
 	err := retry.RetryOnConflict(retry.DefaultRetry, func() (err error) {
 		err = s.gatewayClient.ProxyV1alpha1().RateLimitConditions().Delete(context.Background(), name, v1.DeleteOptions{})
 		if err == nil || errors.IsNotFound(err) {
@@ -89,10 +95,33 @@ func (s *objectStore) Delete(cluster, name string) error {
 }
 
 func (s *objectStore) DeleteUpstream(cluster string) error {
-	itemsToDelete := s.localStore.ListUpstream(cluster)
-	for _, item := range itemsToDelete {
+	// serialized with the sync to the API, see Delete
+	s.Lock()
+	defer s.Unlock()
+
+	// delete what is persisted for the upstream, not only what the local store
+	// knows: a condition can exist in the API alone (a save whose
+	// acknowledgement was lost, a save racing with a delete) and would come
+	// back with the next Load
+	names := sets.NewString()
+	for _, item := range s.localStore.ListUpstream(cluster) {
+		names.Insert(item.Name)
+	}
+	persisted, err := s.gatewayClient.ProxyV1alpha1().RateLimitConditions().List(context.Background(), v1.ListOptions{
+		ResourceVersion: "0",
+	})
+	if err != nil {
+		return err
+	}
+	for i := range persisted.Items {
+		if persisted.Items[i].Spec.UpstreamCluster == cluster {
+			names.Insert(persisted.Items[i].Name)
+		}
+	}
+	for _, name := range names.List() {
+		name := name
 		err := retry.RetryOnConflict(retry.DefaultRetry, func() (err error) {
-			err = s.gatewayClient.ProxyV1alpha1().RateLimitConditions().Delete(context.Background(), item.Name, v1.DeleteOptions{})
+			err = s.gatewayClient.ProxyV1alpha1().RateLimitConditions().Delete(context.Background(), name, v1.DeleteOptions{})
 			if err == nil || errors.IsNotFound(err) {
 				return nil
 			}
@@ -207,6 +236,13 @@ func (s *objectStore) sync() {
 }
 
 func (s *objectStore) doSyncLocked() error {
+	if s.syncPeriod == 0 {
+		// write-through: every acknowledged condition is persisted already, and
+		// writing a snapshot of the local store could replace a newer
+		// acknowledged condition in the API by an older one
+		return nil
+	}
+
 	klog.V(2).Infof("Sync store [%s] local data to k8s", s.string())
 
 	s.Lock()
